@@ -9,7 +9,7 @@ For each property:
 import json
 
 from .. import matchpipe, render, tlc
-from ..common import Report, load_known_findings, MachineryError, REPO
+from ..common import Report, load_known_findings, MachineryError, REPO, seed
 
 FF = [(False, False)]
 ALL4 = matchpipe.FLAGS
@@ -80,7 +80,18 @@ def run_part(report, prop, key, u, opts, tier):
         job_listings = [{"id": n, "text": "\n".join(t) + "\n"} for n, t in enumerate(u["texts"])]
     else:
         job_listings = [{"id": n, "text": render.listing_text(L)} for n, L in enumerate(lsts)]
-    obs = matchpipe.drive({"rules": job_rules, "listings": job_listings, "pairs": "all",
+    # the cross product is run completely unless it exceeds the tier's budget; then every rule is run on a
+    # seeded sample of the listings (the evidence says so and `exhaustive` is not claimed)
+    budget = opts.get("max_cases", 400000 if tier == "quick" else 1500000)
+    pairs = "all"
+    if len(job_rules) * len(job_listings) > budget:
+        import random
+        rnd = random.Random(seed() + 1000003 * len(job_rules))
+        per_rule = max(1, budget // len(job_rules))
+        pairs = [[ri, li] for ri in range(len(job_rules)) for li in rnd.sample(range(len(job_listings)), min(per_rule, len(job_listings)))]
+        report.notes.append(f"part {key or 'main'}: {len(pairs)} of {len(job_rules) * len(job_listings)} cases sampled (seed {seed()})")
+        report.cov["sampled"] = True
+    obs = matchpipe.drive({"rules": job_rules, "listings": job_listings, "pairs": pairs,
                            "fresh": bool(opts.get("fresh"))}, tag=f"{prop}{key or ''}")
     cases = [matchpipe.case_of(o, rules[o["r"]][0] + 1, o["l"] + 1, rules[o["r"]][1], rules[o["r"]][2],
                                rules[o["r"]][4]) for o in obs]
@@ -182,7 +193,7 @@ def run(prop, tier):
     if prop == "C18":
         c18_real_objdump(report, tier)
     run_witnesses(report, prop)
-    report.cov["exhaustive"] = True
+    report.cov["exhaustive"] = not report.cov.get("sampled", False)
     return report.finish()
 
 
